@@ -139,18 +139,24 @@ def pair_sites(ctx, repo):
         selfn = func_params(fn)[0]
         # --- R2: lock-step: the two returned lists as value terms right after they are filled
         TT = Terms(fn)
-        retnames = []
-        for r_ in [x for x in stmts_of(fn) if isinstance(x, ast.Return)][-1:]:
-            if isinstance(r_.value, (ast.List, ast.Tuple)) and all(isinstance(e_, ast.Name) for e_ in r_.value.elts):
-                retnames = [e_.id for e_ in r_.value.elts]
-        filled = {}
-        for st_ in fn.body:
-            env_ = TT.before.get(id(st_), ({}, set()))[0]
-            for nm in retnames:
-                if nm not in filled and nm in env_:
-                    ft = fuse(env_[nm])
-                    if isinstance(ft, ast.ListComp) and len(ft.generators) == 1:
-                        filled[nm] = ft
+        retnames, filled = [], {}
+        for r_ in [x for x in stmts_of(fn) if isinstance(x, ast.Return)]:
+            if not (isinstance(r_.value, (ast.List, ast.Tuple)) and all(isinstance(e_, ast.Name) for e_ in r_.value.elts)):
+                continue
+            cand = [e_.id for e_ in r_.value.elts]
+            got = {}
+            for st_ in fn.body:
+                env_ = TT.before.get(id(st_), ({}, set()))[0]
+                for nm in cand:
+                    if nm not in got and nm in env_:
+                        ft = fuse(env_[nm])
+                        if isinstance(ft, ast.ListComp) and len(ft.generators) == 1:
+                            got[nm] = ft
+            if len(cand) == 2 and len(got) == 2:
+                retnames, filled = cand, got
+                break
+            if not retnames:
+                retnames, filled = cand, got
         if len(retnames) == 2 and len(filled) == 2:
             a_, b_ = (alpha(filled[nm]) for nm in retnames)
             ga, gb = a_.generators[0], b_.generators[0]
@@ -172,8 +178,9 @@ def pair_sites(ctx, repo):
             npaths += 1
             sorted_keys = []       # key lists already sorted in place
             reordered = {}         # partner -> key used
+            holder = {}            # local name -> partner whose reordered copy it holds
             for e in p.events:
-                if e.kind != "stmt":
+                if e.kind not in ("stmt", "return"):
                     continue
                 s = e.node
                 if isinstance(s, ast.Assign) and isinstance(s.value, ast.Call) and (access_path(s.value.func) or "").endswith("sort_list") \
@@ -182,9 +189,15 @@ def pair_sites(ctx, repo):
                     tgt = access_path(s.targets[0])
                     if key in sorted_keys:
                         bad = bad or (s, "the partner list is reordered with a key list that was already sorted in place: every value is paired with the wrong partner")
-                    if tgt != partner:
-                        bad = bad or (s, "the reordered partner is stored in %s, not back in %s" % (tgt, partner))
                     reordered[partner] = key
+                    if tgt:
+                        holder[tgt] = partner
+                elif isinstance(s, ast.Assign) and len(s.targets) == 1 and isinstance(s.targets[0], ast.Name) and isinstance(s.value, ast.Name):
+                    # the reordered copy handed on to another local (or back to the partner's name)
+                    if s.value.id in holder:
+                        holder[s.targets[0].id] = holder[s.value.id]
+                    else:
+                        holder.pop(s.targets[0].id, None)
                 elif isinstance(s, ast.Expr) and is_method_call(s.value, "sort") and isinstance(s.value.func.value, ast.Name):
                     k = s.value.func.value.id
                     if k not in reordered.values():
@@ -198,6 +211,13 @@ def pair_sites(ctx, repo):
                     if k not in reordered.values():
                         bad = bad or (s, "%s is sorted but its partner list was not reordered with it" % k)
                     sorted_keys.append(k)
+                elif isinstance(s, ast.Return) and isinstance(s.value, (ast.List, ast.Tuple)) and reordered:
+                    # what is handed out in the partner's place must be the reordered copy
+                    names = [access_path(x) for x in s.value.elts]
+                    for partner in reordered:
+                        held = [n_ for n_ in names if n_ is not None and holder.get(n_) == partner]
+                        if not held:
+                            bad = bad or (s, "the reordered copy of %s is not what is returned (returned: %s): the sorted keys are paired with the unsorted partner" % (partner, names))
             for partner, key in reordered.items():
                 if key not in sorted_keys:
                     bad = bad or (fn, "partner %s is reordered by %s but %s itself is left unsorted" % (partner, key, key))
@@ -319,6 +339,20 @@ def r4_find_optimum(ctx, repo):
             st["none"] = val if isinstance(atom.ops[0], ast.Is) else not val
         elif isinstance(atom, ast.Compare) and isinstance(atom.ops[0], ast.In) and "'criteria'" in t:
             st["has"] = val
+        elif isinstance(atom, ast.Compare) and isinstance(atom.ops[0], (ast.In, ast.NotIn)) and "criteria" in text(atom.left) \
+                and isinstance(atom.comparators[0], (ast.Tuple, ast.List, ast.Set)) and all(is_const(x) for x in atom.comparators[0].elts):
+            vals = [const_value(x) for x in atom.comparators[0].elts]
+            member = val if isinstance(atom.ops[0], ast.In) else not val
+            if set(vals) <= {"minimize", None} and "minimize" in vals:
+                # criteria in ('minimize', None): true -> minimise (or absent), false -> neither
+                if member:
+                    st["min"] = True
+                else:
+                    st["min"] = False
+                    if None in vals:
+                        st["none"] = False
+            elif vals == ["maximize"]:
+                st["max"] = member
 
     for p in Enumerator(loop_counts=(0, 1)).function_paths(fn):
         if p.outcome == "raise":
@@ -443,10 +477,12 @@ def r5_indicators(ctx, repo):
             ctx.violated("R5", C, where(mod, red[0]), "the minimum is taken over axis %d = the computed points: this yields the distance from each reference point, not from each computed point" % axis, key="gd-axis")
         else:
             ctx.holds("R5", C, where(mod, red[0]), "min over the reference axis of cdist(%s, %s): nearest reference point per computed point" % tuple(order), key="gd-axis")
-        rv = canon_text(rets[-1].value, defs)
-        okd = isinstance(rets[-1].value, ast.BinOp) and isinstance(rets[-1].value.op, ast.Div) and text(rets[-1].value.right) == "len(%s)" % comp \
-            and (access_path(rets[-1].value.left.func) if isinstance(rets[-1].value.left, ast.Call) else "") in ("np.sum", "sum", "numpy.sum", "np.nansum")
-        okm = isinstance(rets[-1].value, ast.Call) and (access_path(rets[-1].value.func) or "").split(".")[-1] in ("mean", "nanmean")
+        trs = [t for _, t in Terms(gd).returns if t is not None]
+        rt = trs[-1] if trs else rets[-1].value
+        rv = text(rt)
+        okd = isinstance(rt, ast.BinOp) and isinstance(rt.op, ast.Div) and text(rt.right) == "len(%s)" % comp \
+            and (access_path(rt.left.func) if isinstance(rt.left, ast.Call) else "") in ("np.sum", "sum", "numpy.sum", "np.nansum")
+        okm = isinstance(rt, ast.Call) and (access_path(rt.func) or "").split(".")[-1] in ("mean", "nanmean")
         if okd or okm:
             ctx.holds("R5", C, where(mod, rets[-1]), "mean over the computed set: %s" % rv, key="gd-mean")
         else:
